@@ -811,7 +811,7 @@ def gen_meta(rng, assoc_clash=None):
 
 
 def gen_inline(rng):
-    strs = ["a", "+", "==", "if", "x y", "a'b", 'q"r', "\\", "ü", "*/", "{", "terminals"]
+    strs = ["a", "+", "==", "if", "x y", "a'b", 'q"r', "\\", "\\n", "a\\tb", "\\\\", "ü", "*/", "{", "terminals"]
     terms = []
     used = rng.sample(strs, rng.randint(2, 5))
     for i, s in enumerate(used):
